@@ -1,5 +1,107 @@
-(* C14 - placeholder while the proofs are being written; replaced below. *)
-From Coq Require Import List.
-From PMS Require Import Model.Gateway.
-Theorem C14_placeholder : True. Proof. exact I. Qed.
-Print Assumptions C14_placeholder.
+(* C14 - a clean stop loses nothing.  Statements only.
+   Machine: Model/Gateway.v (step, save_tick, restart, proj, load_tree) over the GENERATED tables
+   and registry; oracles (awesomeversion, float(), clock) universally quantified.
+   Persistence machine (Proofs/DirtyProofs.v): pop := POp o | PSave | PRestart,
+   pstep uses step / save_tick / restart of the model; state = (gateway, file content).
+   File formats and faults: C11 / C12 / C13; the timer thread interleaving: C15. *)
+From Coq Require Import List NArith ZArith Bool String.
+From PMS Require Import Base.PyStr Base.Exn Model.Codec Model.TableTypes Gen.Tables Model.Validate
+  Model.Oracles Model.Hex Model.Ota Model.Gateway Spec.SerialApi Proofs.GwInv
+  Spec.TreeMeaning Proofs.TreeProofs Proofs.TreeHistory Proofs.DirtyProofs.
+Import ListNotations.
+Open Scope Z_scope.
+
+(* C14.1: with persistence enabled, a dispatcher call that changes the persisted tree leaves the
+   state marked unsaved (all five configurations, all oracles, every state with the invariant) *)
+Theorem C14_tree_change_marks_dirty :
+  forall orc clock v g l g' r,
+    cfg_is v (g_cf g) -> Inv orc g -> cf_persist (g_cf g) = true ->
+    logic orc clock g l = Ok (g', r) ->
+    proj (g_sensors g') <> proj (g_sensors g) -> g_dirty g' = true.
+Proof. exact tree_change_marks_dirty. Qed.
+
+(* the flag after a dispatcher call, exactly: set iff the line is accepted and alerting *)
+Theorem C14_logic_dirty_exact :
+  forall orc clock v g l g' r,
+    cfg_is v (g_cf g) -> Inv orc g -> logic orc clock g l = Ok (g', r) ->
+    g_dirty g' = match alerted_line (gvalidate orc g) v (proj (g_sensors g)) l with
+                 | Some _ => if cf_persist (g_cf g) then true else g_dirty g
+                 | None => g_dirty g
+                 end.
+Proof. exact logic_dirty_exact. Qed.
+
+(* the dispatcher never clears the flag *)
+Theorem C14_logic_never_clears :
+  forall orc clock v g l g' r,
+    cfg_is v (g_cf g) -> Inv orc g -> logic orc clock g l = Ok (g', r) ->
+    g_dirty g = true -> g_dirty g' = true.
+Proof. exact logic_never_clears. Qed.
+
+(* controller calls (set_child_value, update_fw, set metric) and queued send jobs change neither
+   the persisted tree nor the flag *)
+Theorem C14_controller_ops_frame :
+  forall orc clock g o, Inv orc g ->
+    match o with Recv _ | Pump => False | _ => True end ->
+    proj (g_sensors (step orc clock g o)) = proj (g_sensors g) /\
+    g_dirty (step orc clock g o) = g_dirty g.
+Proof. exact controller_ops_frame. Qed.
+
+Theorem C14_send_job_frame :
+  forall orc clock g l rest, g_jobs g = JSend l :: rest ->
+    proj (g_sensors (pump orc clock g)) = proj (g_sensors g) /\ g_dirty (pump orc clock g) = g_dirty g.
+Proof. exact send_job_frame. Qed.
+
+(* a load restores exactly what was projected into the file *)
+Theorem C14_proj_load_tree : forall t : tree, proj (load_tree t) = t.
+Proof. exact proj_load_tree. Qed.
+
+(* C14.2: over ALL histories of messages, pump iterations, controller calls, periodic saves and
+   clean restarts from a fresh gateway with persistence: clean implies the file holds the tree *)
+Theorem C14_clean_implies_synced :
+  forall orc clock v cf pops, cfg_is v cf -> cf_persist cf = true -> Forall pop_ok pops ->
+    let s := prun orc clock (gw_init cf, None) pops in
+    g_dirty (fst s) = false -> snd s = Some (proj (g_sensors (fst s))).
+Proof. exact clean_implies_synced. Qed.
+
+(* C14.3: after stop() and the next start, the new gateway holds exactly the tree (every node,
+   child, value, attribute; order included) held at the stop, and so does the file *)
+Theorem C14_stop_loses_nothing :
+  forall orc clock v cf pops, cfg_is v cf -> cf_persist cf = true -> Forall pop_ok pops ->
+    let s := prun orc clock (gw_init cf, None) pops in
+    let s' := pstep orc clock s PRestart in
+    proj (g_sensors (fst s')) = proj (g_sensors (fst s)) /\
+    snd s' = Some (proj (g_sensors (fst s))) /\
+    g_sensors (fst s') = load_tree (proj (g_sensors (fst s))).
+Proof. exact stop_loses_nothing. Qed.
+
+(* non-vacuity *)
+Example C14_cfg_exists : cfg_is V22 (mkConfig tab_22 true true true true) /\
+                         cf_persist (mkConfig tab_22 true true true true) = true.
+Proof. repeat split. Qed.
+
+(* the D7 scenario: a node id reserved after a periodic save survives stop + restart *)
+Example C14_reservation_after_save_survives :
+  let cf := mkConfig tab_22 true true true true in
+  let s := prun no_oracles 0 (gw_init cf, None)
+             [POp (Recv (s2p "1;255;0;0;3;x")); PSave; POp (Recv (s2p "255;255;3;0;3;")); PRestart] in
+  map fst (g_sensors (fst s)) = [1; 2] /\ option_map (map fst) (snd s) = Some [1; 2] /\
+  g_dirty (fst s) = false.
+Proof. vm_compute. repeat split. Qed.
+
+(* a tree-changing message right after a save marks the state dirty (premises of C14.1) *)
+Example C14_change_after_save_is_dirty :
+  let cf := mkConfig tab_22 true true true true in
+  let s := prun no_oracles 0 (gw_init cf, None) [POp (Recv (s2p "1;255;0;0;3;x")); PSave] in
+  let s' := pstep no_oracles 0 s (POp (Recv (s2p "1;255;3;0;0;77"))) in
+  g_dirty (fst s) = false /\ g_dirty (fst s') = true /\
+  proj (g_sensors (fst s')) <> proj (g_sensors (fst s)).
+Proof. vm_compute. repeat split. discriminate. Qed.
+
+Print Assumptions C14_tree_change_marks_dirty.
+Print Assumptions C14_logic_dirty_exact.
+Print Assumptions C14_logic_never_clears.
+Print Assumptions C14_controller_ops_frame.
+Print Assumptions C14_send_job_frame.
+Print Assumptions C14_proj_load_tree.
+Print Assumptions C14_clean_implies_synced.
+Print Assumptions C14_stop_loses_nothing.
